@@ -92,6 +92,19 @@ Proof.
   assert (0 <= 2 ^ Z.of_nat bits)%Z by (apply Z.pow_nonneg; lia). lia.
 Qed.
 
+Lemma qroot_proper c c' n : c == c' -> qroot c n = qroot c' n.
+Proof. intros H. unfold qroot. rewrite (Qred_complete _ _ H). reflexivity. Qed.
+Lemma qroot_one n : qroot 1 n = Ok 1.
+Proof.
+  unfold qroot. change (Qred 1) with 1. change (qis0 1) with false. change (Qnum 1 <? 0)%Z with false.
+  cbv match. change (Qnum 1) with 1%Z. change (Z.pos (Qden 1)) with 1%Z.
+  assert (E : iroot n 1 = 1%Z).
+  { unfold iroot. change (Z.to_nat (Z.log2 1 + 1)) with 1%nat. cbn [iroot_bits].
+    change (0 + 2 ^ Z.of_nat 0)%Z with 1%Z. rewrite Z.pow_pos_fold, Z.pow_1_l by lia.
+    reflexivity. }
+  rewrite E. rewrite Z.pow_pos_fold, Z.pow_1_l by lia. reflexivity.
+Qed.
+
 Lemma qroot_ok c (n : positive) r : qroot c n = Ok r -> qpown r (Pos.to_nat n) == c.
 Proof.
   unfold qroot. set (c' := Qred c).
@@ -229,7 +242,7 @@ Qed.
 Theorem nthroot_spec s (np : positive) prec c :
   wf s -> ~ coef s 0 == 0 -> (2 <= Zpos np)%Z -> (0 < prec < 2147483648)%N ->
   qroot (find_cf s 0) np = Ok c ->
-  exists r, series_nthroot s (Zpos np) prec = Ok r /\ wf r /\
+  exists r, series_nthroot s (Zpos np) prec = Ok r /\ wf r /\ den r O == c /\
             eqn (N.to_nat prec) (ppow_s (den r) (Pos.to_nat np)) (den s).
 Proof.
   intros Ws H0 Hn Hp Hq.
@@ -249,6 +262,10 @@ Proof.
   destruct (invert_spec R prec WR R0n (proj2 Hp)) as (iv & Ei & Wi & Hi).
   rewrite Ei. cbn [bind].
   exists (pmul_q iv c). split; [reflexivity|]. split; [apply wf_pmul_q; exact Wi|].
+  split.
+  { rewrite (den_pmul_q iv c (proj2 Wi) O). unfold pscale.
+    assert (A := Hi O ltac:(lia)). rewrite pmul_coef0, R0 in A. change (p1 O) with 1 in A.
+    setoid_replace (den iv O) with 1 by (rewrite <- A; ring). ring. }
   set (k := Pos.to_nat np). fold k in HR.
   rewrite (den_pmul_q iv c (proj2 Wi)). rewrite <- pC_mul.
   rewrite ppow_s_mul_base, pC_pow.
@@ -271,7 +288,7 @@ Qed.
 Theorem nthroot_inv_spec s (np : positive) prec c :
   wf s -> ~ coef s 0 == 0 -> (2 <= Zpos np)%Z -> (0 < prec < 2147483648)%N ->
   qroot (find_cf s 0) np = Ok c -> ~ c == 0 ->
-  exists r, series_nthroot s (Zneg np) prec = Ok r /\ wf r /\
+  exists r, series_nthroot s (Zneg np) prec = Ok r /\ wf r /\ den r O == / c /\
             eqn (N.to_nat prec) (ppow_s (den r) (Pos.to_nat np) * den s)%ps p1.
 Proof.
   intros Ws H0 Hn Hp Hq Hc0.
@@ -289,6 +306,10 @@ Proof.
   destruct (Z.ltb_spec (Zneg np) 0); [|lia].
   unfold pdiv_q. assert (Hcz : qis0 c = false) by (apply qis0_false; exact Hc0). rewrite Hcz.
   eexists. split; [reflexivity|]. split; [apply wf_pmul_full; [exact WR|apply wf_pconst]|].
+  split.
+  { rewrite (den_pmul_full R (pconst (qinv c)) (proj2 WR) (proj2 (wf_pconst _)) O).
+    rewrite pmul_coef0, R0, (den_pconst (qinv c) O). change (pC (qinv c) O) with (qinv c).
+    rewrite qinv_ok. ring. }
   set (k := Pos.to_nat np). fold k in HR.
   rewrite den_pmul_full; [|apply WR|apply wf_pconst]. rewrite den_pconst, qinv_ok.
   rewrite ppow_s_mul_base, pC_pow.
